@@ -371,10 +371,39 @@ func runC06(c *Ctx) {
 
 	// ---- injected headers
 	const rInj = "hit injects X-Vegeta-Attack (only when the attack has a name, with that name) and X-Vegeta-Seq (the decimal of this result's Seq) with constant keys"
-	sets := callsNamed(hit, "(net/http.Header).Set")
+	var sets []ssa.Instruction
+	for _, f := range region(hit) {
+		if f.Pkg == hit.Pkg && (f == hit || f.Parent() == hit || onlyCalledFrom(c, f, hit)) {
+			sets = append(sets, callsNamed(f, "(net/http.Header).Set")...)
+		}
+	}
 	gotKeys := map[string]bool{}
 	okInj := true
 	whyInj := ""
+	isAttackName := func(v ssa.Value) bool {
+		v = throughParam(c, v)
+		ld, ok := isLoad(v)
+		if !ok {
+			return false
+		}
+		fa, ok := ld.X.(*ssa.FieldAddr)
+		return ok && isNamedType(fa.X.Type(), "lib", "attack") && fieldName(fa.X.Type(), fa.Field) == "name"
+	}
+	isThisSeq := func(v ssa.Value) bool {
+		v = throughParam(c, stripConv(v))
+		ld, ok := isLoad(v)
+		if !ok {
+			return false
+		}
+		fa, ok := ld.X.(*ssa.FieldAddr)
+		if !ok || !isNamedType(fa.X.Type(), "lib", "Result") || fieldName(fa.X.Type(), fa.Field) != "Seq" {
+			return false
+		}
+		// the result being built by this hit: hit's own local, or a helper parameter fed with it
+		base := throughParam(c, fa.X)
+		al, isAl := rootCell(base).(*ssa.Alloc)
+		return isAl && al.Parent() == hit
+	}
 	for _, s := range sets {
 		call := s.(*ssa.Call)
 		k, isK := constString(call.Call.Args[1])
@@ -385,12 +414,12 @@ func runC06(c *Ctx) {
 		gotKeys[k] = true
 		switch k {
 		case "X-Vegeta-Attack":
-			if describeVal(call.Call.Args[2]) != "arg1.name" {
+			if !isAttackName(call.Call.Args[2]) {
 				okInj, whyInj = false, "X-Vegeta-Attack does not carry the attack name"
 			}
 			guarded := false
 			for _, f := range factsAt(call.Block()) {
-				if bo, isBo := f.Cond.(*ssa.BinOp); isBo && bo.Op == token.NEQ && f.Val && describeVal(bo.X) == "arg1.name" {
+				if bo, isBo := f.Cond.(*ssa.BinOp); isBo && bo.Op == token.NEQ && f.Val && isAttackName(bo.X) {
 					guarded = true
 				}
 			}
@@ -398,15 +427,36 @@ func runC06(c *Ctx) {
 				okInj, whyInj = false, "X-Vegeta-Attack is sent even for an unnamed attack"
 			}
 		case "X-Vegeta-Seq":
-			if normDecimal(describeVal(call.Call.Args[2])) != "decimal(var<lib.Result>.Seq)" {
-				okInj, whyInj = false, "X-Vegeta-Seq is "+describeVal(call.Call.Args[2])+", not this result's sequence number"
-			}
-			if len(factsAt(call.Block())) > 0 && !edgeDominates(call.Block(), 0, call.Block()) {
-				// must be unconditional apart from earlier error returns: check it is must-pass before Do
-				set := explore(hit.Blocks[0].Instrs[0], true, func(i ssa.Instruction) bool { return i == ssa.Instruction(call) })
-				if set[ssa.Instruction(do)] {
-					okInj, whyInj = false, "X-Vegeta-Seq is not set on every path to the transport"
+			dec, isCall := call.Call.Args[2].(*ssa.Call)
+			okSeq := false
+			if isCall {
+				switch callName(&dec.Call) {
+				case "strconv.FormatUint", "strconv.FormatInt":
+					if b, isB := constInt(dec.Call.Args[1]); isB && b == 10 {
+						okSeq = isThisSeq(dec.Call.Args[0])
+					}
+				case "strconv.Itoa":
+					okSeq = isThisSeq(dec.Call.Args[0])
 				}
+			}
+			if !okSeq {
+				okInj, whyInj = false, "X-Vegeta-Seq is "+describeVal(call.Call.Args[2])+", not the decimal of this result's sequence number"
+			}
+			// on every path from hit's entry to the transport
+			var gate ssa.Instruction = call
+			if call.Parent() != hit {
+				eachInstr(hit, func(i ssa.Instruction) {
+					if ci, ok := i.(*ssa.Call); ok && ci.Call.StaticCallee() == call.Parent() {
+						gate = ci
+					}
+				})
+				if set := explore(call.Parent().Blocks[0].Instrs[0], true, func(i ssa.Instruction) bool { return i == ssa.Instruction(call) }); len(returnsIn(set)) > 0 {
+					okInj, whyInj = false, "X-Vegeta-Seq is not set on every path of the helper"
+				}
+			}
+			set := explore(hit.Blocks[0].Instrs[0], true, func(i ssa.Instruction) bool { return i == gate })
+			if set[ssa.Instruction(do)] {
+				okInj, whyInj = false, "X-Vegeta-Seq is not set on every path to the transport"
 			}
 		default:
 			okInj, whyInj = false, "unexpected injected header "+k
@@ -420,23 +470,31 @@ func runC06(c *Ctx) {
 	// ---- chunked
 	const rChunk = "the chunked option appends \"chunked\" to the request's TransferEncoding exactly when set"
 	okCh := false
-	eachInstr(hit, func(i ssa.Instruction) {
-		if st, ok := i.(*ssa.Store); ok {
-			if fa, isFA := st.Addr.(*ssa.FieldAddr); isFA && fieldName(fa.X.Type(), fa.Field) == "TransferEncoding" {
-				if call, isCall := st.Val.(*ssa.Call); isCall && callName(&call.Call) == "builtin:append" {
-					if el, isEl := sliceElems(call.Call.Args[1]); isEl && len(el) == 1 {
-						if s, isS := constString(el[0]); isS && s == "chunked" {
-							for _, f := range factsAt(st.Block()) {
-								if attackerFieldLoad(f.Cond, "chunked") && f.Val {
-									okCh = true
+	var chunkFns []*ssa.Function
+	for _, f := range region(hit) {
+		if f == hit || f.Parent() == hit || onlyCalledFrom(c, f, hit) {
+			chunkFns = append(chunkFns, f)
+		}
+	}
+	for _, cf := range chunkFns {
+		eachInstr(cf, func(i ssa.Instruction) {
+			if st, ok := i.(*ssa.Store); ok {
+				if fa, isFA := st.Addr.(*ssa.FieldAddr); isFA && fieldName(fa.X.Type(), fa.Field) == "TransferEncoding" {
+					if call, isCall := st.Val.(*ssa.Call); isCall && callName(&call.Call) == "builtin:append" {
+						if el, isEl := sliceElems(call.Call.Args[1]); isEl && len(el) == 1 {
+							if s, isS := constString(el[0]); isS && s == "chunked" {
+								for _, f := range factsAt(st.Block()) {
+									if attackerFieldLoad(f.Cond, "chunked") && f.Val {
+										okCh = true
+									}
 								}
 							}
 						}
 					}
 				}
 			}
-		}
-	})
+		})
+	}
 	c.Check(okCh, "chunked-option:(*lib.Attacker).hit", rChunk, "append under a.chunked", "the chunked option is not applied as documented", c.fnAt(hit))
 
 	c06HeaderCase(c)
@@ -495,7 +553,7 @@ func c06HeaderCase(c *Ctx) {
 		}
 		var bad []ssa.Instruction
 		updates := 0
-		for _, f := range withAnon(fn) {
+		for _, f := range region(fn) {
 			c.Saw("function " + shortFn(f))
 			eachInstr(f, func(i ssa.Instruction) {
 				if call, ok := i.(ssa.CallInstruction); ok {
@@ -566,25 +624,17 @@ func c06Request(c *Ctx) {
 		}
 	}
 	if ok {
-		// header copy: MapUpdate on req.Header with key = range key, value = MakeSlice; copy(dst, vs)
-		okH := false
+		// header copy: every value stored into the request's header map is a freshly allocated slice
+		okH, nUpd := true, 0
 		eachInstr(fn, func(i ssa.Instruction) {
 			if mu, isMU := i.(*ssa.MapUpdate); isMU && isNamedType(mu.Map.Type(), "net/http", "Header") {
-				if _, isMk := mu.Value.(*ssa.MakeSlice); isMk {
-					okH = true
-				}
-				if call, isCall := mu.Value.(*ssa.Call); isCall {
-					n := callName(&call.Call)
-					if n == "builtin:append" || n == "slices.Clone" {
-						if el, isNil := call.Call.Args[0].(*ssa.Const); n == "slices.Clone" || isNil && el.Value == nil {
-							okH = true
-						}
-					}
+				nUpd++
+				if !isFreshSlice(mu.Value) {
+					okH = false
 				}
 			}
 		})
-		copies := callsNamed(fn, "builtin:copy")
-		if !okH || (len(copies) == 0 && len(callsNamed(fn, "builtin:append", "slices.Clone")) == 0) {
+		if !okH || nUpd == 0 {
 			ok, why = false, "header values are not copied into fresh slices (the request would alias the target)"
 		}
 	}
@@ -680,4 +730,65 @@ func c06Redirects(c *Ctx) {
 		}
 	}
 	c.Check(ok, key, rule, "NoFollow → ErrUseLastResponse; n < len(via) → error; else nil", why, c.fnAt(fn))
+}
+
+// onlyCalledFrom: f is a named function of the package whose every static call site is in caller.
+func onlyCalledFrom(c *Ctx, f, caller *ssa.Function) bool {
+	n := 0
+	okAll := true
+	for _, g := range c.P.AllRepoFuncs() {
+		eachInstr(g, func(i ssa.Instruction) {
+			if ci, ok := i.(ssa.CallInstruction); ok && ci.Common().StaticCallee() == f {
+				n++
+				if g != caller {
+					okAll = false
+				}
+			}
+		})
+	}
+	return n > 0 && okAll
+}
+
+// throughParam: when v is a parameter of a function that has exactly one
+// static call site in the repository, return the argument passed there.
+func throughParam(c *Ctx, v ssa.Value) ssa.Value {
+	for k := 0; k < 3; k++ {
+		p, ok := v.(*ssa.Parameter)
+		if !ok {
+			// a load of a spilled parameter
+			if ld, isL := isLoad(v); isL {
+				if pp := paramOfCell(ld); pp != nil {
+					p = pp
+				}
+			}
+			if p == nil {
+				return v
+			}
+		}
+		fn := p.Parent()
+		idx := -1
+		for i, q := range fn.Params {
+			if q == p {
+				idx = i
+			}
+		}
+		var arg ssa.Value
+		n := 0
+		for _, g := range c.P.AllRepoFuncs() {
+			eachInstr(g, func(i ssa.Instruction) {
+				if ci, ok := i.(ssa.CallInstruction); ok && ci.Common().StaticCallee() == fn && idx < len(ci.Common().Args) {
+					n++
+					arg = ci.Common().Args[idx]
+				}
+			})
+		}
+		if n != 1 || arg == nil {
+			return v
+		}
+		v = arg
+		if _, more := v.(*ssa.Parameter); !more {
+			return v // one hop is enough once we reach a non-parameter
+		}
+	}
+	return v
 }
